@@ -24,7 +24,7 @@ func init() {
 func runC03(c *Ctx) {
 	c.Rule("R3.1", 4, "parallel-index discipline between definitions, per-definition automata and the final-state map")
 	c.Rule("R3.2", 5, "winner / conflict decision table equals the documented priority rule")
-	c.Rule("R3.3", 3, "backslash escapes of string literals are resolved before the literal's automaton is built")
+	c.Rule("R3.3", 4, "backslash escapes of string literals are resolved before the literal's automaton is built")
 	c.Rule("R3.4", 3, "pattern errors surface before the automata are combined")
 
 	c.mute = map[string]bool{"R5.4": true, "R4.2": true}
@@ -563,6 +563,7 @@ func checkLiteralEscapes(c *Ctx) {
 		return
 	}
 	c.Check("R3.3", "the literal's automaton spells the definition's value rune by rune", litFn.Pos(), direct, "the literal-to-automaton function does not range over the runes of its parameter")
+	checkEscapeResolver(c, "R3.3", sp)
 	c.Extra("string_escape_admitted", admits)
 	c.Extra("unescape_steps_found", transforms)
 }
